@@ -343,6 +343,11 @@ def create_ast_from_phase(code, phase_name):
         if isinstance(statement, Nop):
             continue
 
+        if statement.condition is False:
+            # Never runs. Lowering it would leave an empty loop body
+            # (ForLoop(..., NullASTNode())) that no backend can emit.
+            continue
+
         main_block.append(loop_to_ast_node(statement))
 
     # }}}
